@@ -47,7 +47,7 @@ BOUND = {
                 "x position {last, first} x indent {default,None,0,1,4} x suffix {'', .gz} (205,400)",
 }
 TIME_CAP = {"quick": 240, "thorough": 3000}
-BOUND["quick"] += '; floats of particular value next to a missing one (-0.0, 1e300, -2**64); properties named like dict methods (values, items, keys, get); a string property ending in U+0000 (collections of <= 2 features over absent / null / 'a' / 'ab\\x00' / '\\x00')'
+BOUND["quick"] += "; floats of particular value next to a missing one (-0.0, 1e300, -2**64); properties named like dict methods (values, items, keys, get); a string property ending in U+0000 (collections of <= 2 features over absent / null / 'a' / 'ab' + NUL / NUL)"
 BOUND["thorough"] += "; plus the additions listed for the quick tier"
 
 POINT = {"type": "Point", "coordinates": [24.94, 60.17]}
